@@ -17,6 +17,7 @@ import Evenio.Proofs.Inv.ListsECex
 import Evenio.Proofs.Inv.Pending
 import Evenio.Proofs.Inv.AllV7
 import Evenio.Proofs.Inv.Instance
+import Evenio.Proofs.Inv.ReachPanic
 /-! Everything about the logical world invariant in one environment: definitions (`WInv.lean`), the calculus, the
     obligations, the group independent glue, the seeds of the group files and the bridge to the executable invariant.
     `lake build Evenio.Proofs.Inv.All`.  Plan: `Evenio/Proofs/WInvPlan.md`. -/
